@@ -74,12 +74,14 @@ fn gen_c01(rng: &mut Rng, tier: Tier, partial_panics: bool) -> LoopScn {
         s.precision_override = Some(1_000);
         s.cost_call = Cost::Const(rng.range(8, 40));
     } else {
-        s.sample_size = Some(rng.range(0, 6) as u32);
+        s.sample_size = Some(if rng.chance(1, 15) { 0 } else { rng.range(1, 6) as u32 });
         s.sample_count = if rng.chance(1, 30) {
             s.sample_size = Some(rng.range(0, 2) as u32);
             None
+        } else if rng.chance(1, 15) {
+            Some(0)
         } else {
-            Some(rng.range(0, 5) as u32)
+            Some(rng.range(1, 5) as u32)
         };
         s.cost_call = pick_cost(rng, 1, 50);
     }
@@ -316,8 +318,9 @@ fn gen_c05(rng: &mut Rng, tier: Tier, faults: bool) -> LoopScn {
         let n = rng.range(1, 2);
         for _ in 0..n {
             let at_read = rng.range(0, 16) as u32;
-            let kind = if rng.chance(1, 2) {
-                ClockFaultKind::JumpFwd { ticks: 1 << rng.range(34, 44) }
+            let kind = if rng.chance(2, 3) {
+                // Up to far beyond 2^64 ps.
+                ClockFaultKind::JumpFwd { ticks: 1 << rng.range(34, 58) }
             } else {
                 ClockFaultKind::Stall { reads: rng.range(2, 8) as u32 }
             };
@@ -382,7 +385,18 @@ fn gen_c11(rng: &mut Rng, _tier: Tier, mode: u64) -> LoopScn {
                     kind: ClockFaultKind::JumpFwd { ticks: 1 << rng.range(1, 62) },
                 });
             }
-            s.min_time = Some((rng.below(3), rng.below(1_000_000_000) as u32));
+            // A counter that wraps reads "zero elapsed" from then on (b < a),
+            // so a time floor could never be reached: only combine min_time
+            // with start values far from the wrap (liveness precondition).
+            // Likewise a time floor is only reachable in a bounded number of
+            // rounds when a round is not far below the floor's resolution.
+            let e_ns = ticks_to_ns(est_round_ticks(&s), s.clock.frequency);
+            if s.clock.start <= 1 << 63 && s.clock.frequency >= 1_000 && e_ns >= 1 {
+                s.min_time = Some(ns(rng.below(20 * e_ns as u64 + 2) as u128));
+            } else {
+                // Still exercised for the Duration conversion.
+                s.min_time = Some((0, 0));
+            }
             s.max_time = *rng.pick(&[None, Some((u64::MAX, 999_999_999)), Some((1 << 40, 17))]);
         }
         // Skew: b < a.
@@ -402,7 +416,7 @@ fn gen_c11(rng: &mut Rng, _tier: Tier, mode: u64) -> LoopScn {
             s.clock.frequency = *rng.pick(&[1_000_000u64, 24_000_000, 1_000_000_000, 2_500_000_000, 3_000_000_019, 10_000_000_000]);
             s.clock.step = *rng.pick(&[1u64, 2, 3, 41, 100, 1000, 4096]);
             s.clock.start = *rng.pick(&[0u64, 7, 1 << 32, 1 << 63]);
-            s.clock.read_cost = rng.range((s.clock.step / 3).max(1), s.clock.step);
+            s.clock.read_cost = crate::looprun::unaliased_read_cost(s.clock.step, rng.range((s.clock.step / 3).max(1), s.clock.step));
             s.sample_size = None;
             s.sample_count = Some(rng.range(1, 2) as u32);
             // A call far above 100x the precision: tuning ends immediately.
@@ -422,7 +436,7 @@ fn gen_c19(rng: &mut Rng, tier: Tier) -> LoopScn {
     if measured {
         s.clock.frequency = *rng.pick(&[1_000_000u64, 24_000_000, 1_000_000_000, 3_000_000_000]);
         s.clock.step = *rng.pick(&[1u64, 41, 100, 1000]);
-        s.clock.read_cost = rng.range((s.clock.step / 3).max(1), s.clock.step);
+        s.clock.read_cost = crate::looprun::unaliased_read_cost(s.clock.step, rng.range((s.clock.step / 3).max(1), s.clock.step));
     } else {
         s.clock = pick_clock(rng, false);
         s.precision_override = Some(*rng.pick(&[1u128, 999, 1_000, 41_000, 1_000_000, 1_000_000_000]));
